@@ -148,6 +148,13 @@ func Walk(root []byte, b []byte) (out string) {
 			sb.WriteString(",")
 		}
 		sb.WriteString("}")
+		if sorted {
+			// tags the message does not have must read as absent in every table form, also in an
+			// empty table (by-tag lookup = the binary search over the raw table)
+			for _, t := range []int{0, 1, 255, 256, 65535} {
+				sb.WriteString(ghostProbe(m, t))
+			}
+		}
 		return sb.String()
 	}
 	return "?" + strconv.Itoa(int(t))
